@@ -666,8 +666,15 @@ DryViol == IF Gen THEN {}
            ELSE IF ini' # ini \/ notes' # notes THEN {"C02_AbortNoop"} ELSE {}
 ReadOnly(cmd) ==
   /\ Guard(NoAgentDirty)
-  /\ GitAdopt(SameG) /\ AiSame(SameG)
-  /\ UNCHANGED <<truth, nu, der, dirty, stash, snote, ops>>
+  /\ GitAdopt(SameG)
+  /\ IF cmd = "dryrun"
+     THEN \* the implicit human checkpoint of the person's unreported edits (as `git-ai checkpoint` would take it)
+          LET op(D) == CkResult(D, wl[head], ini[head], isnap[head], HeadTree, wt, idx, "human", H,
+                                { f \in File : dirty[f] = H }, FALSE)
+          IN /\ AiAdopt(SameG, [wl EXCEPT ![head] = op(Dev)], ini, notes, FiredDevs(op))
+             /\ dirty' = [f \in File |-> IF dirty[f] = H THEN None ELSE dirty[f]]
+     ELSE AiSame(SameG) /\ dirty' = dirty
+  /\ UNCHANGED <<truth, nu, der, stash, snote, ops>>
   /\ Step2([a |-> "ReadOnly", cmd |-> cmd], IF cmd = "dryrun" THEN DryViol ELSE StutterViol)
 
 \* the same checkpoint again, right after the original one
